@@ -324,6 +324,7 @@ FLOORS = {
 }
 
 SUB_OF_PROP = {"C36": ["authz"], "C40": ["cb", "cbfn"], "C46": ["auth"]}
+PREFIX = {"authz": "az-", "cb": "cb-", "cbfn": "fn-", "auth": "au-"}
 MC_OF_PROP = {"C36": "TransferAuthz", "C40": "Callbacks", "C46": "Auth"}
 
 
@@ -365,8 +366,13 @@ def run_family(tier, seed, binary=None):
     th.join()
     if errors:
         raise errors[0]
+    # harness sanity ("X"): a trace with a sanity failure is tainted and judged by nobody.  If nothing else failed the run
+    # is an infrastructure problem; if a property monitor failed on an UNTAINTED trace that failure stands on its own
+    # (it is re-executed before it is reported) and the sanity failures are kept for per-property handling (probe_known).
     sanity = [f for f in fails if f[2] == "X"]
-    if sanity:
+    tainted = set(f[0] for f in sanity)
+    fails = [f for f in fails if f[2] != "X" and f[0] not in tainted]
+    if sanity and not [f for f in fails if f[2] in PROPS]:
         raise vk.Infra("harness sanity monitors failed (infrastructure): %s" % sanity[:5])
     cov = collections.Counter()
     sigs = collections.defaultdict(set)
@@ -389,7 +395,7 @@ def run_family(tier, seed, binary=None):
     counts = {sub: {"cases": len(items[sub]), "steps": len(lines[sub])} for sub in items}
     result.update({"tier": tier, "seed": seed, "traces": sum(len(v) for v in items.values()), "steps": sum(len(v) for v in lines.values()),
                    "fails": fails, "coverage": dict(cov), "sigs": {p: len(s) for p, s in sigs.items()}, "failing_schedules": failing,
-                   "sample": samples, "counts": counts, "gen_info": gen.get("info"), "wall": time.time() - t0})
+                   "sample": samples, "counts": counts, "sanity": sanity[:50], "gen_info": gen.get("info"), "wall": time.time() - t0})
     return result
 
 
@@ -445,7 +451,8 @@ def evidence(pid, res):
         "rule": RULES[pid],
         "model_check": {mcname: mc},
         "coverage_by_action": {k: v for k, v in sorted(res.get("coverage", {}).items()) if k.startswith(prefix)},
-        "exhaustive": pid in ("C40", "C46"),
+        # C40/C46 replay complete enumerations; the quick tier enumerates a documented sub-space, so only thorough claims it
+        "exhaustive": pid in ("C40", "C46") and res.get("tier") == "thorough",
     }
     if pid == "C46":
         ev["transition_enumeration"] = res.get("gen_info", {}).get("au")
@@ -493,6 +500,10 @@ def match_known(fail, schedule, known):
 
 def probe_known(pid, known, res):
     """For every listed open finding of this family: report whether its input class still fails in this run."""
+    # sanity failures of this property's drivers without any clean failure of this property: not a verdict
+    mine = [f for f in res.get("sanity", []) if any(str(f[0]).startswith(PREFIX[s]) for s in SUB_OF_PROP[pid])]
+    if mine and not [f for f in res.get("fails", []) if f[2] == pid]:
+        raise vk.Infra("harness sanity monitors failed for %s (infrastructure): %s" % (pid, mine[:5]))
     lines = []
     for k in known:
         if k.get("family", FAMILY) != FAMILY or k.get("property") != pid:
